@@ -116,6 +116,10 @@ func RunOne(name string, tape *sim.Tape, root, binDir string, sample bool, suppr
 	if res.Class != "" {
 		res.Tape = append([]uint32(nil), tape.Rec...)
 	}
+	if keep := os.Getenv("VERIF_KEEP"); keep != "" {
+		os.RemoveAll(keep)
+		os.Rename(filepath.Join(root, "world"), keep)
+	}
 	os.RemoveAll(filepath.Join(root, "world"))
 	return
 }
